@@ -5905,7 +5905,8 @@ class FrameBury(Instruction):
 
     @property
     def stack_push_size(self) -> int:
-        return 1
+        # frame_bury pops the top value and stores it in the frame slot, it does not push anything.
+        return 0
 
     def __str__(self) -> str:
         return f"frame_bury {self._index}"
